@@ -51,6 +51,14 @@ func (h *H) Stream(ctx context.Context, tag int) (<-chan int, error) {
 	return out, nil
 }
 
+// LateStream returns its channel only after its context ended (slow set-up of a subscription).
+func (h *H) LateStream(ctx context.Context, tag int) (<-chan int, error) {
+	h.wait(ctx, tag)
+	out := make(chan int)
+	close(out)
+	return out, nil
+}
+
 func send(pc *verif.PeerConn, m map[string]interface{}) {
 	b, _ := json.Marshal(m)
 	pc.Send(b)
@@ -70,7 +78,7 @@ func HarnessConnEnd() {
 	n := verif.Bound("N", 2)
 	kinds := make([]int, n)
 	for i := 0; i < n; i++ {
-		kinds[i] = verif.Choice("kind"+string(rune('0'+i)), 3)
+		kinds[i] = verif.Choice("kind"+string(rune('0'+i)), 4)
 		h.linger[i] = verif.Bool("linger" + string(rune('0'+i)))
 		switch kinds[i] {
 		case 0:
@@ -79,6 +87,8 @@ func HarnessConnEnd() {
 			send(pc, map[string]interface{}{"jsonrpc": "2.0", "method": "H.Notif", "params": []interface{}{i}})
 		case 2:
 			send(pc, map[string]interface{}{"jsonrpc": "2.0", "id": i + 1, "method": "H.Stream", "params": []interface{}{i}})
+		case 3:
+			send(pc, map[string]interface{}{"jsonrpc": "2.0", "id": i + 1, "method": "H.LateStream", "params": []interface{}{i}})
 		}
 	}
 	verif.Quiesce() // every handler is running and blocked on its context
